@@ -1354,6 +1354,8 @@ func init() {
 			checkWitnessAll(c, "R5.3")
 			checkMergeCommitPack(c)
 			checkClockRebuild(c)
+			// two writers side by side hand out the same clock values: a refused command must not delete the holder's lock (shared with C19)
+			checkNoCloseAfterFailedOpen(c, isBackendClose)
 		})
 }
 
